@@ -442,10 +442,13 @@ def arity_sweep_terms():
 # ---------------------------------------------------------------------------
 # gcc audit of the model
 # ---------------------------------------------------------------------------
+TU_LINES = 2500  # assertions per translation unit (gcc's fixed cost is ~0.3 s, 0.2 s per 1000 lines)
+
+
 def _audit_work(task):
     n, root, lo, hi, modes, primes, workdir, tag = task
     ops = M.OPS_CONST
-    it = iter(M.shapes(0, ops)) if n == 0 else M.shapes_rooted(n, ops[root], ops)
+    it = iter(M.shapes(n, ops)) if root is None else M.shapes_rooted(n, ops[root], ops)
     lines = []
     meta = []
     skipped = 0
@@ -460,8 +463,8 @@ def _audit_work(task):
             meta.append((t, mode))
     bad_all = []
     tus = 0
-    for i in range(0, len(lines), 1000):
-        chunk = lines[i : i + 1000]
+    for i in range(0, len(lines), TU_LINES):
+        chunk = lines[i : i + TU_LINES]
         bad, err = M.run_gcc_batch(chunk, workdir, f"{tag}_{i}")
         tus += 1
         for j in bad:
@@ -475,10 +478,11 @@ def _audit_work(task):
 
 def audit(R, quick, workdir):
     ops = M.OPS_CONST
-    plan = []  # (n, modes, primes)
+    assignments = [M.PRIMES_UP, M.PRIMES_DOWN] + M.AUDIT_EXTRA
+    plan = []  # (n, modes, leaf values)
     for n in (0, 1, 2):
-        plan.append((n, M.MODES, M.PRIMES_UP))
-        plan.append((n, M.MODES, M.PRIMES_DOWN))
+        for pr in assignments:
+            plan.append((n, M.MODES, pr))
     if quick:
         plan.append((3, ("minimal",), M.PRIMES_DOWN))
     else:
@@ -486,12 +490,14 @@ def audit(R, quick, workdir):
         plan.append((3, M.MODES, M.PRIMES_DOWN))
     tasks = []
     for pi, (n, modes, primes) in enumerate(plan):
-        if n == 0:
-            tasks.append((0, 0, 0, 1, modes, primes, workdir, f"a{pi}"))
+        step = TU_LINES // len(modes)
+        if n <= 2:
+            c = M.count_shapes(n, ops)
+            for lo in range(0, c, step):
+                tasks.append((n, None, lo, min(c, lo + step), modes, primes, workdir, f"a{pi}_{lo}"))
             continue
         for r, op in enumerate(ops):
             c = M.count_rooted(n, op, ops)
-            step = 1000 if len(modes) == 1 else 334
             for lo in range(0, c, step):
                 tasks.append((n, r, lo, min(c, lo + step), modes, primes, workdir, f"a{pi}_{r}_{lo}"))
     asserted = skipped = tus = 0
@@ -518,7 +524,7 @@ def audit(R, quick, workdir):
         for o2 in M.BINARY_OPS:
             pairs += 1
             hit = False
-            for primes in (M.PRIMES_UP, M.PRIMES_DOWN):
+            for primes in assignments:
                 a, b, c = (M.Const(str(p)) for p in primes[:3])
                 try:
                     if M.evaluate(M.Binary(o2, M.Binary(o1, a, b), c)) != M.evaluate(
@@ -614,12 +620,16 @@ def run(tier):
         for p in M.positions(t):
             wrapped.append(M.wrap_at(t, p))
     sweeps.append(("single_paren_pair_at_every_position", wrapped, ("minimal",), ("stmt", "init", "case")))
+    distinct_nontrivial = total["nontrivial"]
     for name, terms, modes, ctxs in sweeps:
-        before = dict((k, total.get(k, 0)) for k in ("terms", "parsed"))
+        before = dict((k, total.get(k, 0)) for k in ("terms", "parsed", "nontrivial"))
         tl = [(ch, modes, ctxs) for ch in core.chunked(terms, 300)]
         for d in core.pmap(_list_work, tl, chunksize=1):
             merge(R, total, d)
-        side[name] = {"terms": total["terms"] - before["terms"], "parsed": total["parsed"] - before["parsed"]}
+        side[name] = {"terms": total["terms"] - before["terms"], "parsed": total["parsed"] - before["parsed"],
+                      "accepted_and_agreeing": total["nontrivial"] - before["nontrivial"]}
+        if name == "constants_and_strings":  # terms with a constant leaf: disjoint from the main sweep
+            distinct_nontrivial += side[name]["accepted_and_agreeing"]
     phases["side_sweeps"] = round(time.time() - t_phase, 1)
 
     # gcc audit
@@ -649,7 +659,8 @@ def run(tier):
     R.set("transitions", total["opnodes"])
     R.set("traces_validated_against_impl", total["parsed"])
     R.set("evaluations", total["parsed"])
-    R.set("distinct_nontrivial", total["nontrivial"])
+    R.set("distinct_nontrivial", distinct_nontrivial)
+    R.set("agreeing_sentences_all_sweeps", total["nontrivial"])
     R.set("distinct_expected_asts", distinct_expected)
     R.set("distinct_outcomes", len(total["outcomes"]))
     R.set("outcome_histogram", total["outcomes"])
@@ -670,7 +681,7 @@ def run(tier):
         "constant_spellings": len(consts),
         "string_leaves": len(strs),
         "type_names": len(M.TYPES),
-        "gcc_audit": "<=2 operators x 3 modes x 2 prime assignments; 3 operators: " + ("minimal mode, 1 assignment" if quick else "3 modes x 2 assignments"),
+        "gcc_audit": "<=2 operators x 3 modes x 8 leaf assignments (2 prime, 6 supplementary); 3 operators: " + ("minimal mode, 1 prime assignment" if quick else "3 modes x 2 prime assignments"),
     })
     R.assumptions += [
         "tokens are rendered with single blanks between them (layout is C17's subject)",
@@ -684,9 +695,12 @@ def run(tier):
         "alphabet, plus the side sweeps); transitions = constructor applications (operator nodes of "
         "all enumerated terms); traces = rendered sentences (term x mode x context, identical "
         "renderings of one term parsed once) parsed by the real parser and compared at the "
-        "expression slot with expect(term), frame compared too. distinct_nontrivial = sentences "
-        "accepted and compared whose term is not a bare identifier (every sentence is a distinct "
-        "text). model_audit = assertions gcc verified about the renderer+evaluator." % len(M.OPS_FULL),
+        "expression slot with expect(term), frame compared too. distinct_nontrivial = sentences of "
+        "the main sweep and of the constant/string sweep that were accepted and agreed and whose "
+        "term is not a bare identifier; these are pairwise distinct texts by construction "
+        "(parenthesis-free terms correspond 1:1 to ASTs, so two different terms cannot render to "
+        "the same tokens; identical renderings of one term in two modes are parsed once); the "
+        "other side sweeps may repeat main-sweep sentences and are not counted. model_audit = assertions gcc verified about the renderer+evaluator." % len(M.OPS_FULL),
     )
 
 
@@ -709,7 +723,7 @@ def replay(rep):
     text = text_of(tree, mode, ctx)
     exp = M.expect(tree)
     print("input:   ", text)
-    print("term:    ", M.class_term(tree), "| mode", mode, "| context", ctx)
+    print("term:    ", M.class_term(tree) if tree[2] else leaf_class(tree), "| mode", mode, "| context", ctx)
     print("expected:", exp)
     out = core.parse_outcome(text)
     if out[0] == "ok":
